@@ -387,7 +387,7 @@ func init() {
 		Old: "\t\tn = reflect.New(t)\n\t\tn.Elem().Set(v)\n\t}\n\n\tif !n.IsValid() {", New: "\t\tif f := pv.Elem().FieldByName(fieldName); !f.IsNil() && f.Type().Elem() == t {\n\t\t\tf.Elem().Set(v)\n\t\t\treturn nil\n\t\t}\n\t\tn = reflect.New(t)\n\t\tn.Elem().Set(v)\n\t}\n\n\tif !n.IsValid() {", Expect: "InsertIntoStruct:Set#"})
 	addMutant(Mutant{Name: "c20-decimal-scale-table", Property: "C20", File: "ytypes/leaf.go",
 		Old: "\t\t\tprec := new(big.Int).Exp(big.NewInt(10), big.NewInt(int64(v.DecimalVal.Precision)), nil)", New: "\t\t\tprec := big.NewInt(decimal64ScaleTable[v.DecimalVal.Precision])",
-		More: []Edit{{File: "ytypes/leaf.go", Old: "// sanitizeGNMI decodes the GNMI TypedValue", New: "var decimal64ScaleTable = [...]int64{1, 10, 100, 1000, 10000, 100000, 1000000, 10000000, 100000000, 1000000000, 10000000000, 100000000000, 1000000000000, 10000000000000, 100000000000000, 1000000000000000, 10000000000000000, 100000000000000000, 1000000000000000000}\n\n// sanitizeGNMI decodes the GNMI TypedValue"}},
+		More: []Edit{{File: "ytypes/leaf.go", Old: "\t\t\tif v.DecimalVal.Precision > 18 {\n\t\t\t\treturn nil, fmt.Errorf(\"received DecimalVal has precision %d, a decimal64 has at most 18 fraction digits\", v.DecimalVal.Precision)\n\t\t\t}\n", New: ""}, {File: "ytypes/leaf.go", Old: "// sanitizeGNMI decodes the GNMI TypedValue", New: "var decimal64ScaleTable = [...]int64{1, 10, 100, 1000, 10000, 100000, 1000000, 10000000, 100000000, 1000000000, 10000000000, 100000000000, 1000000000000, 10000000000000, 100000000000000, 1000000000000000, 10000000000000000, 100000000000000000, 1000000000000000000}\n\n// sanitizeGNMI decodes the GNMI TypedValue"}},
 		Expect: "table-index#1:decimal64ScaleTable"})
 	addMutant(Mutant{Name: "c26-listkey-name-not-uniquified", Property: "C26", File: "gogen/unordered_list.go",
 		Old: "\t\t\tkeyElemNames[fName] = genutil.MakeNameUnique(key.Name, usedFieldNames)\n", New: "\t\t\tkeyElemNames[fName] = key.Name\n\t\t\tusedFieldNames[key.Name] = true\n",
@@ -510,4 +510,13 @@ func init() {
 		Old: "\t\t\t\tnv := reflect.New(v.Type()).Elem()\n\t\t\t\tif err := copyInterfaceField(nv, v, fmt.Sprintf(\"%s[%v]\", accessPath, i), opts...); err != nil {\n\t\t\t\t\treturn err\n\t\t\t\t}\n\t\t\t\tv = nv\n", New: "\t\t\t\t_ = opts\n", Expect: "interface-elements-copied"})
 	addMutant(Mutant{Name: "c05-union-binary-copy-nil-for-empty", Property: "C05", File: "ygot/struct_validation_map.go",
 		Old: "\t\tns := reflect.MakeSlice(srcVal.Type(), 0, srcVal.Len())", New: "\t\tns := reflect.Zero(srcVal.Type())", Expect: "copyInterfaceField:binary-arm"})
+}
+
+func init() {
+	addMutant(Mutant{Name: "c20-nil-update-dereferenced", Property: "C20", File: "ytypes/gnmi.go",
+		Old: "\tif update == nil {\n\t\treturn nil, fmt.Errorf(\"nil gpb.Update in input\")\n\t}\n", New: "", Expect: "R-NIL-ENTRY"})
+	addMutant(Mutant{Name: "c20-key-float-without-lexical-check", Property: "C20", File: "ytypes/util_types.go",
+		Old: "\t\tif err != nil || !decimal64Regexp.MatchString(s) {", New: "\t\tif err != nil {", Expect: "StringToType:ParseFloat"})
+	addMutant(Mutant{Name: "c20-precision-unbounded", Property: "C20", File: "ytypes/leaf.go",
+		Old: "\t\t\tif v.DecimalVal.Precision > 18 {", New: "\t\t\tif v.DecimalVal.Digits > 1<<62 {", Expect: "precision-use#"})
 }
